@@ -1070,6 +1070,16 @@ def opaque_constructs(body):
         arms = m[mt.end():end]
         if re.search(r'(?:^|[,{|]|\n)\s*"[^"\n]*"\s*(?:\|\s*"[^"\n]*"\s*)*=>', arms):
             out.append("string-literal pattern in a match")
+    # a loop that carries no invariant (the unit's template has no `@loop` block for it: typically a loop an edit introduced):
+    # Verus forgets everything the loop may modify, so a postcondition rejected after it says nothing about the code
+    try:
+        offs = loops_in(body)
+    except Exception:
+        offs = []
+    for k, o in enumerate(offs, 1):
+        kws = [mt.start() for mt in re.finditer(r"\b(for|while|loop)\b", mm[:o])]
+        if kws and "invariant" not in mm[kws[-1]:o]:
+            out.append("loop %d without an invariant" % k)
     return sorted(set(out))
 
 
